@@ -7,11 +7,6 @@ NOT_APPLICABLE = {
            "random programs; deciding it needs compiling/importing each pair, and a symbolic encoding would "
            "have to cover the import system, dlopen and libffi. The shared conversion kernels are decided "
            "under C03/C13; claiming C33 on that basis would overstate.",
-    'C34': "Object identity of ctypes across separately imported extension modules, produced by code walking "
-           "live CPython objects and module state at import time; no bounded symbolic encoding of that runtime "
-           "is within reach of the solver-based engines here.",
-    'C36': "Depends on CPython's PyThreadState life-cycle and pthread TLS-destructor ordering at thread exit; "
-           "not encodable from cffi's code alone.",
 }
 
 PENDING_REASON = ("check not built yet in this session (design in DESIGN.md section 4); "
@@ -162,6 +157,35 @@ reg('C10', engine='pysym + llsym',
     note='Trusted: pysym proxies, llsym semantics, GCC\'s enum rule as stated, abstract dict model. API-mode enum '
          'size/sign (taken from the compiler) not covered.',
     technique='symbolic execution via proxy values (Python) and of LLVM IR (C), SMT (z3)')
+
+reg('C34', engine='llsym',
+    text='Bounded symbolic execution of the real delegation code behind ffi.include(): _realize_c_struct_or_union / '
+         '_fetch_external_struct_or_union, ffi_fetch_int_constant and lib_build_and_cache_attr over include graphs of up to 4 '
+         'FFI/Lib objects whose tables have symbolic names and flags, under the representation invariant that Parser.include '
+         'and the Recompiler establish: the ctype / value / lib attribute seen through the includer IS the defining module\'s '
+         'object (pointer identity, both realization orders, cached, reference held); Parser.include on a symbolic '
+         'declaration key shares exactly the type declarations as the same model object. Enum types are found NOT to be '
+         'shared in generated modules (known finding).',
+    note='Trusted: clang IR, llsym semantics, CPython contracts (tuple/dict/str), the stated table invariant (sorted, includers '
+         're-list aggregates as external, one definer per tag). Import-time wiring (make_included_tuples) and in-line FFIs '
+         'are exercised by the real-module replays only.',
+    technique='symbolic execution of LLVM IR over symbolic module tables and of Python via proxy values, SMT (z3), '
+              'counterexamples replayed on real generated modules')
+
+reg('C36', engine='llsym',
+    text='Bounded symbolic execution of the real thread-state protocol of misc_thread_common.h / misc_thread_posix.h '
+         '(gil_ensure, gil_release, thread_canary_register / free_zombies / dealloc / make_zombie, cffi_thread_shutdown, '
+         'get_cffi_tls): one step of each operation (callback twice in a row, thread exit, canary deallocation, zombie '
+         'reclamation) from an arbitrary state satisfying the representation invariant (zombie list of up to 2/3 exited '
+         'threads in any order, 0..1/2 live foreign threads, the caller in 4 situations, every gilstate_counter), which each '
+         'step re-establishes -- so histories of any length are covered: the callback runs with a live, current thread state; '
+         'a foreign thread\'s state and its dict survive the call and are found again by the next one; exited threads\' states '
+         'are cleared and deleted exactly once; no freed memory is touched; shared links are only touched under the zombie lock.',
+    note='Trusted: clang IR, llsym semantics, and the CPython / pthread CONTRACTS written in the harness (PyGILState_*, '
+         'PyThreadState_Clear/Delete, TLS keys): the claim is cffi\'s side of the protocol. Leak / double-free / lock-discipline '
+         'violations are reported from the model (no deterministic real-world symptom); behavioural ones are replayed with real '
+         'foreign threads.',
+    technique='symbolic execution of LLVM IR, inductive step from an arbitrary invariant-satisfying state, SMT (z3)')
 
 reg('C37', engine='llsym',
     text='Bounded symbolic execution of the real in-line library accessors and of ffi_dlclose/lib_getattr/lib_setattr/'
